@@ -58,7 +58,7 @@ def register(reg: Registry) -> None:
             "all_int(lambda r, i, j: implies(jmp(routines, r, i) and 0 <= j and j < old(len(root(routines, r, i).params)), root(routines, r, i).params[j] is old(root(routines, r, i).params[j])))",
         ],
         modifies=["self.routines", "*lel", "*llen", "alloc"],
-        loops={0: dict(invariants=['fresh(self.routines) and len(self.routines) == it_i', 'inputs_unchanged(routines)', 'all_int(lambda r: implies(0 <= r and r < it_i, fresh(self.routines[r]) and self.routines[r] is not self.routines and out_ok(routines, self.routines[r], r, len(routines[r]))))', 'all_int(lambda r, q: implies(0 <= r and r < q and q < it_i, self.routines[r] is not self.routines[q]))', 'all_int(lambda r, i: implies(jmp(routines, r, i) and r < it_i, done(routines, label_offsets, r, i)))', 'all_int(lambda r, i: implies(jmp(routines, r, i) and r >= it_i, unchanged_list(root(routines, r, i).params)))']), 1: dict(invariants=['is_int(routine_id) and 0 <= routine_id and routine_id < len(routines) and rtn is routines[routine_id]', 'fresh(self.routines) and len(self.routines) == routine_id + 1 and self.routines[routine_id] is new_rtn_ops and fresh(new_rtn_ops) and new_rtn_ops is not self.routines', 'inputs_unchanged(routines)', 'all_int(lambda r: implies(0 <= r and r < routine_id, fresh(self.routines[r]) and self.routines[r] is not new_rtn_ops and self.routines[r] is not self.routines and out_ok(routines, self.routines[r], r, len(routines[r]))))', 'all_int(lambda r, q: implies(0 <= r and r < q and q < routine_id, self.routines[r] is not self.routines[q]))', 'out_ok(routines, new_rtn_ops, routine_id, it_i)', 'all_int(lambda i: implies(0 <= i and i < it_i and not isinstance(rtn[i], SsbLabel), count_not_inst(rtn, i, SsbLabel) < count_not_inst(rtn, it_i, SsbLabel)))', 'all_int(lambda r, i: implies(jmp(routines, r, i) and (r < routine_id or (r == routine_id and i < it_i)), done(routines, label_offsets, r, i)))', 'all_int(lambda r, i: implies(jmp(routines, r, i) and (r > routine_id or (r == routine_id and i >= it_i)), unchanged_list(root(routines, r, i).params)))'])},
+        loops={0: dict(invariants=['fresh(self.routines) and len(self.routines) == it_i', 'inputs_unchanged(routines)', 'all_int(lambda r: implies(0 <= r and r < it_i, fresh(self.routines[r]) and self.routines[r] is not self.routines and out_ok(routines, self.routines[r], r, len(routines[r]))))', 'all_int(lambda r, i: implies(jmp(routines, r, i) and r < it_i, done(routines, label_offsets, r, i)))', 'all_int(lambda r, i: implies(jmp(routines, r, i) and r >= it_i, unchanged_list(root(routines, r, i).params)))']), 1: dict(invariants=['is_int(routine_id) and 0 <= routine_id and routine_id < len(routines) and rtn is routines[routine_id]', 'fresh(self.routines) and len(self.routines) == routine_id + 1 and self.routines[routine_id] is new_rtn_ops and fresh(new_rtn_ops) and new_rtn_ops is not self.routines', 'inputs_unchanged(routines)', 'all_int(lambda r: implies(0 <= r and r < routine_id, fresh(self.routines[r]) and self.routines[r] is not new_rtn_ops and self.routines[r] is not self.routines and out_ok(routines, self.routines[r], r, len(routines[r]))))', 'out_ok(routines, new_rtn_ops, routine_id, it_i)', 'all_int(lambda i: implies(0 <= i and i < it_i and not isinstance(rtn[i], SsbLabel), count_not_inst(rtn, i, SsbLabel) < count_not_inst(rtn, it_i, SsbLabel)))', 'all_int(lambda r, i: implies(jmp(routines, r, i) and (r < routine_id or (r == routine_id and i < it_i)), done(routines, label_offsets, r, i)))', 'all_int(lambda r, i: implies(jmp(routines, r, i) and (r > routine_id or (r == routine_id and i >= it_i)), unchanged_list(root(routines, r, i).params)))'])},
         canaries=["all_int(lambda r, i: implies(jmp(routines, r, i), root(routines, r, i).params[0] == label_offsets[lbl(routines, r, i).id]))"],
         properties=["C03", "C01", "C07"],
     )
